@@ -10,7 +10,8 @@ EXPLANATION = ("Order/dominance and provenance facts over the MIR of the three p
                "CheckInfo::check, Container::check and ContainerPack::check, plus constant agreement between the manifest mask "
                "(PACK_INFO_TO_CHECK / PACK_INFO_SIZE) and the extracted PackInfo layout. They are necessary conditions of C04 "
                "that hold on every execution at once (success paths of `?` considered); that a particular alteration changes "
-               "the Blake3 digest is the hash's property and is assumed.")
+               "the Blake3 digest is the hash's property and is assumed."
+               " (R5) an error met while locating, opening or parsing a pack is never turned into 'absent' (= C06-R7): the container-wide check cannot skip an altered pack.")
 ASSUMPTIONS = ["Blake3 collision resistance", "CheckKind::None (container packs) verifies by design",
                "std::io Seek/Read/Write semantics", "rustc MIR construction and trait resolution"]
 
